@@ -290,6 +290,42 @@ func c10Check(c *Ctx, m map[string]interface{}, key string, val interface{}, asS
 			c.Violate("Map.UpdateValuesForPath", "subkeys", shape, cas, choices, detail("changed "+ch.loc+" although its node does not satisfy the sub-keys"))
 			return true
 		}
+		// (3b) a list of maps under k replaced as a whole although the node that holds it has none of the keys the
+		// sub-keys name: such conditions can only select among the list members - the way ValuesForPath(path, subkeys)
+		// applies them, and the way UpdateValuesForPath applies a positive condition. Kept to exclusion conditions
+		// with a value ("!key:value"): for "!key:*" replacing the whole list is what the library has always done and
+		// no property decides between the two; this clause guards the member selection that fix dba99f9 (exclusion
+		// on an absent key) had switched off for UpdateValuesForPath by accident.
+		onlyValued := true
+		for _, cd := range conds {
+			if !cd.neg || cd.wild {
+				onlyValued = false
+			}
+		}
+		// (only in the addressing form whose path ends in k: there the values the path yields are the list members; in
+		// the other form the path yields the node that holds k, and the conditions are about that node)
+		if len(conds) > 0 && onlyValued && !ch.memberLvl && !ch.inserted && steps[len(steps)-1] == key && !strings.Contains(ch.loc, "#") {
+			// (... and only where the holder of k is reached through maps: for a holder that is itself a list member the
+			// library applies the conditions to that member and has never looked at the members of the list under k)
+			if old, isList := atLoc(before, ch.loc).([]interface{}); isList {
+				pm, _ := ch.container.(map[string]interface{})
+				names, anyMap := false, false
+				for _, cd := range conds {
+					if _, has := pm[cd.key]; has {
+						names = true
+					}
+				}
+				for _, e := range old {
+					if _, isM := e.(map[string]interface{}); isM {
+						anyMap = true
+					}
+				}
+				if !names && anyMap && pm != nil {
+					c.Violate("Map.UpdateValuesForPath", "subkeys-select-list-members", shape, cas, choices, detail("the list at "+ch.loc+" was replaced as a whole although its node has none of the keys the sub-keys name"))
+					return true
+				}
+			}
+		}
 	}
 	// (4) count
 	if count != len(changes) {
